@@ -181,7 +181,7 @@ def run_property(pid, tier, rule_fn):
         level = getattr(rule_fn, "level", "other")
         res = Result(pid, level)
         res.coverage = {"explanation": "analysis aborted: fails closed", "evaluations": 1, "distinct_nontrivial": 2}
-        res.add("engine", "unanalysable/" + re.sub(r"[^A-Za-z0-9_:<>.-]+", "_", e.what)[:120],
+        res.add("engine", "unanalysable/" + re.sub(r"[^A-Za-z0-9_:<>.-]+", "_", e.what.split("; ")[0])[:120],
                 "unanalysable construct (fails closed): %s" % e)
     except (PathEndLike, RecursionError, KeyError, IndexError, TypeError, AttributeError, ValueError, AssertionError) as e:
         # an internal error of the analysis must never look like a pass: fail closed, with the reason
